@@ -492,6 +492,31 @@ func AllPaths(f *dsl.File, c *dsl.Config) []string {
 	return out
 }
 
+// AllTypeKeys lists the Message.Field keys of every attribute of the selected roots.
+func AllTypeKeys(f *dsl.File, c *dsl.Config) []string {
+	seen := map[string]bool{}
+	var out []string
+	var walk func(m *spec.Msg)
+	walk = func(m *spec.Msg) {
+		for _, a := range m.Attrs {
+			if !a.Placeholder && !seen[a.TypeKey] {
+				seen[a.TypeKey] = true
+				out = append(out, a.TypeKey)
+			}
+			if a.Msg != nil {
+				walk(a.Msg)
+			}
+		}
+	}
+	for _, r := range c.Types {
+		if s, err := dsl.BuildSpec(f, c, r); err == nil {
+			walk(s)
+		}
+	}
+	sort.Strings(out)
+	return out
+}
+
 // Variant derives a configuration variant of a case: sort on/off, package
 // layout, and a per-field option mix ("none", "flags", "names").
 func Variant(c *Case, sortOn bool, separate bool, mix string) *Case {
@@ -527,6 +552,12 @@ func Variant(c *Case, sortOn bool, separate bool, mix string) *Case {
 		n.Cfg.NameOverrides = map[string]string{}
 		for i, p := range paths {
 			n.Cfg.NameOverrides[p] = fmt.Sprintf("ovr_%d", i)
+		}
+	case "typenames":
+		// overrides keyed by Message.Field
+		n.Cfg.NameOverrides = map[string]string{}
+		for i, k := range AllTypeKeys(c.File, c.Cfg) {
+			n.Cfg.NameOverrides[k] = fmt.Sprintf("tk_%d", i)
 		}
 	default:
 		panic(mix)
